@@ -105,7 +105,12 @@ def structure_task(variant):
                                                                       z3.And(isdif(x), y == sat)))),
                     ("typed", spec.typed(ctx, g)),
                     ("fanin-of-old-nodes-but-sat-unchanged", z3.ForAll([x, y], z3.Implies(z3.And(g_in.node(y), y != sat), g.edge(x, y) == g_in.edge(x, y)))),
-                ]
+                    # the three clauses of the postcondition that this loop establishes, over the endpoints compared so far
+                    ("outputs={sat}", z3.ForAll([x], z3.Implies(g.node(x), z3.And(z3.Select(g.hasout, x), z3.Select(g.out, x)) == (x == sat)))),
+                    ("fanin-of-sat", z3.ForAll([x], g.edge(x, sat) == isdif(x))),
+                    ("fanin-of-dif", z3.ForAll([x, y], z3.Implies(done.mem(y), g.edge(x, difp(y)) == z3.Or(x == c0p(y), x == c1p(y))))),
+                ] + [(k, f) for k, f in structure_posts(ctx, g, H["g0"], H["g1"], H["S_eff"](), done).items()
+                     if k in ("dif-are-xors", "inputs=tied-startpoints")]
             return ex.invariant_for(s, st, it, ordinal, inv, mod_objs=[m], label="compare-endpoints")
 
         ex = Exec(ctx, summaries=dict(layer1.SUMMARIES), module_consts=engine.module_constants("circuitgraph/circuit.py"),
@@ -138,6 +143,30 @@ def structure_task(variant):
         for n_ in _ast.walk(fn):
             if isinstance(n_, _ast.Expr) and isinstance(n_.value, _ast.Call) and getattr(n_.value.func, "attr", "") in ("add_subcircuit", "add"):
                 ex.cuts[n_.end_lineno] = lambda ex_, st_: [("typed", spec.typed(ctx, st_.g(st_.env["m"])))]
+        # cut points at the top-level phases of the function: the state reached is re-stated in the vocabulary of the
+        # postcondition (over the startpoints tied / endpoints compared so far) and the definitions of the
+        # intermediate graphs are forgotten, which keeps every later VC small (and its solving time stable)
+        FORGET = ("N!", "FI!", "hasty!", "hasout!", "ty!", "out!", "bbdom!", "bbval!", "hv_")
+        EMPTY = Coll(lambda t: z3.BoolVal(False))
+
+        def phase_cut(tied, compared, with_sat):
+            def cut(ex_, st_):
+                gm_ = st_.g(st_.env["m"])
+                S_ = tied(st_)
+                posts_ = structure_posts(ctx, gm_, H["g0"], H["g1"], S_, compared(st_), with_sat=with_sat)
+                facts = [("phase:" + k, f) for k, f in posts_.items()]
+                facts.append(("phase:typed", spec.typed(ctx, gm_)))
+                facts.append(("phase:graph-invariant", gm_.wf(ctx)))
+                return {"forget": FORGET, "facts": facts}
+            return cut
+        top = [n_ for n_ in fn.body]
+        subs = [n_ for n_ in top if isinstance(n_, _ast.Expr) and isinstance(n_.value, _ast.Call) and getattr(n_.value.func, "attr", "") == "add_subcircuit"]
+        fors = [n_ for n_ in top if isinstance(n_, _ast.For)]
+        adds = [n_ for n_ in top if isinstance(n_, _ast.Expr) and isinstance(n_.value, _ast.Call) and getattr(n_.value.func, "attr", "") == "add"]
+        if len(subs) == 2 and len(fors) == 2 and len(adds) == 1:
+            ex.cuts[("node", id(subs[1]))] = phase_cut(lambda st_: EMPTY, lambda st_: EMPTY, False)
+            ex.cuts[("node", id(fors[0]))] = phase_cut(lambda st_: H["S_eff"](), lambda st_: EMPTY, False)
+            ex.cuts[("node", id(adds[0]))] = phase_cut(lambda st_: H["S_eff"](), lambda st_: EMPTY, True)
         if variant.endswith("explicit"):
             S = verify.mk_names(ex, "startpoints", is_list=False)
             Eps = verify.mk_names(ex, "endpoints", is_list=False)
@@ -151,6 +180,22 @@ def structure_task(variant):
             bind["startpoints"], bind["endpoints"] = S, Eps
         else:
             bind["startpoints"], bind["endpoints"] = NONE, NONE
+        def eff():
+            if variant.endswith("explicit"):
+                return bind["startpoints"], bind["endpoints"]
+            if "eff" not in H:
+                # the effective sets of the property statement, as named sets with their definitions as hypotheses
+                # (an opaque name keeps the VCs small: the definition is unfolded only where a proof needs it)
+                sp = lambda g, n: z3.And(g.node(n), z3.Or(z3.Select(g.ty, n) == T["input"], z3.Select(g.ty, n) == T["bb_output"]))
+                ep = lambda g, n: z3.And(g.node(n), z3.Or(z3.And(z3.Select(g.hasout, n), z3.Select(g.out, n)), z3.Select(g.ty, n) == T["bb_input"]))
+                sa, ea = ctx.arr_nb("tied_startpoints"), ctx.arr_nb("compared_endpoints")
+                q = ctx.fresh_name("q")
+                st0.pc.append(z3.ForAll([q], z3.Select(sa, q) == z3.And(sp(g0, q), sp(g1, q))))
+                st0.pc.append(z3.ForAll([q], z3.Select(ea, q) == z3.And(ep(g0, q), ep(g1, q))))
+                H["eff"] = (Coll.from_array(sa), Coll.from_array(ea))
+            return H["eff"]
+        H["S_eff"] = lambda: eff()[0]
+        eff()
         outs = verify.bind_and_run(ex, fn, st0, bind)
         n_ret = 0
         for o in outs:
@@ -166,13 +211,7 @@ def structure_task(variant):
             c0p, c1p, difp, undif = H["c0p"], H["c1p"], H["difp"], H["undif"]
             unc0, unc1 = ctx.template_inverse[("c0_", "")], ctx.template_inverse[("c1_", "")]
             # effective tied startpoints / compared endpoints, from the property statement
-            if variant.endswith("explicit"):
-                S_eff, E_eff = bind["startpoints"], bind["endpoints"]
-            else:
-                sp = lambda g, n: z3.And(g.node(n), z3.Or(z3.Select(g.ty, n) == T["input"], z3.Select(g.ty, n) == T["bb_output"]))
-                ep = lambda g, n: z3.And(g.node(n), z3.Or(z3.And(z3.Select(g.hasout, n), z3.Select(g.out, n)), z3.Select(g.ty, n) == T["bb_input"]))
-                S_eff = Coll(lambda n: z3.And(sp(g0, n), sp(g1, n)))
-                E_eff = Coll(lambda n: z3.And(ep(g0, n), ep(g1, n)))
+            S_eff, E_eff = eff()
             posts = structure_posts(ctx, gm, g0, g1, S_eff, E_eff)
             posts["arguments-untouched"] = verify.heap_eq(ex, o.st.heap, st0.heap, list(st0.heap))
             posts["result-is-a-new-object"] = z3.BoolVal(o.st.goid(m) not in st0.heap and o.st.heap[m.oid].bbs not in st0.heap)
